@@ -54,6 +54,13 @@ def _gen_one(i):
         obls = it.generate(repo)
         return obls, None, it.func_info, it.stats, None
     except E.ToolLimit as e:
+        if E.LOAD_FLOOR < 4.0:
+            # once more with four times the solver budgets inside the executor: a limit that was a cut-off query goes away, a real one stays
+            E.LOAD_FLOOR = 4.0
+            try:
+                return _gen_one(i)
+            finally:
+                E.LOAD_FLOOR = 1.0
         return [], str(e) or 'tool limit', it.func_info, it.stats, None
     except RecursionError:
         return [], 'recursion limit in executor', it.func_info, it.stats, None
